@@ -86,7 +86,7 @@ pub proof fn lemma_gen_post_refl(a: Compiler)
 /// the `ok` flag of gen_post only guards "at least one byte was emitted" and "scope / context depth restored"
 pub proof fn lemma_gen_post_upgrade(a: Compiler, c: Compiler)
     requires gen_post(a, c, false), c.instructions@.len() > a.instructions@.len(),
-             sym_depth(c.symbols) == sym_depth(a.symbols), sym_contexts(c.symbols) == sym_contexts(a.symbols), sym_outer(c.symbols) == sym_outer(a.symbols),
+             sym_depth(c.symbols) == sym_depth(a.symbols), sym_contexts(c.symbols) == sym_contexts(a.symbols), sym_outer(c.symbols) == sym_outer(a.symbols), sym_outer_sizes(c.symbols) == sym_outer_sizes(a.symbols),
     ensures gen_post(a, c, true)
 {}
 
@@ -168,7 +168,7 @@ pub proof fn lemma_step_appended(b: Compiler, c: Compiler, n: int)
 /// constants only grow, scope depth and number of function contexts are back where they were
 pub open spec fn consts_syms_kept(a: Compiler, c: Compiler) -> bool {
     a.constants@.len() <= c.constants@.len() && (forall|i: int| 0 <= i < a.constants@.len() ==> c.constants@[i] == a.constants@[i])
-        && sym_depth(c.symbols) == sym_depth(a.symbols) && sym_contexts(c.symbols) == sym_contexts(a.symbols) && sym_outer(c.symbols) == sym_outer(a.symbols)
+        && sym_depth(c.symbols) == sym_depth(a.symbols) && sym_contexts(c.symbols) == sym_contexts(a.symbols) && sym_outer(c.symbols) == sym_outer(a.symbols) && sym_outer_sizes(c.symbols) == sym_outer_sizes(a.symbols)
 }
 /// a generator that leaves EVERY loop context exactly as it found it (Expr::While pops the context it pushed;
 /// Expr::Function swaps the enclosing contexts out and back)
